@@ -2,6 +2,7 @@ package props
 
 import (
 	"fmt"
+	"io"
 	"os"
 	"runtime"
 
@@ -159,6 +160,39 @@ func (w *diffWorker) program(s0 ref.State, base *mem.Image, stale bool, g *vf.Rn
 		case 1:
 			w.rig.prim.Interrupt, w.rig.alt.Interrupt = 2, 2 // NMI
 			w.cells["interrupt:nmi-requested"]++
+		}
+		// so are the other host-side entry points, applied identically to both between two steps
+		if g.Intn(50) == 0 {
+			w.rig.bm.M, w.rig.am = mp, ma
+			var hp, ha interface{}
+			what := ""
+			switch g.Intn(4) {
+			case 0:
+				what = "Reset()"
+				hp = vf.Try(func() { w.rig.prim.Reset() })
+				ha = vf.Try(func() { w.rig.alt.Reset() })
+			case 1:
+				what = "SetFlags(Flags())"
+				hp = vf.Try(func() { w.rig.prim.SetFlags(w.rig.prim.Flags()) })
+				ha = vf.Try(func() { w.rig.alt.SetFlags(w.rig.alt.Flags()) })
+			case 2:
+				f := g.U8()
+				what = fmt.Sprintf("SetFlags($%02x)", f)
+				hp = vf.Try(func() { w.rig.prim.SetFlags(f) })
+				ha = vf.Try(func() { w.rig.alt.SetFlags(f) })
+			default:
+				what = "DisassembleCurrentPC"
+				hp = vf.Try(func() { w.rig.prim.DisassembleCurrentPC(nil) })
+				ha = vf.Try(func() { w.rig.alt.DisassembleCurrentPC(io.Discard) })
+			}
+			w.cells["host-call:"+what[:4]]++
+			sp, sa := absPrim(&w.rig.prim), absAlt(w.rig.alt)
+			if d := diffState(sp, sa); len(d) > 0 || (hp != nil) != (ha != nil) {
+				w.r.Fail("host-call:"+what[:4], fmt.Sprintf("program step %d: after %s on both: %v differ (panics %v/%v): primary={%v} alternative={%v} | before={%v}", step, what, d, hp, ha, sp, sa, pre), nil)
+				return step, "violation"
+			}
+			pre = sp
+			op = mp.Peek(uint32(pre.K)<<16 | uint32(pre.PC))
 		}
 		rp, ra := w.stepBoth(mp, ma)
 		w.r.Eval(1)
